@@ -86,7 +86,19 @@ int main(int argc, char **argv)
       report("native_type", f, D, gd_native_type(D, f));
       long long eof = gd_eof64(D, f); report("eof", f, D, eof);
       long long bof = gd_bof64(D, f); report("bof", f, D, bof);
-      if (t == GD_SINDIR_ENTRY) { const char *sb[64]; report("getdata_s", f, D, gd_getdata64(D, f, 0, 0, 0, 8, GD_STRING, sb)); continue; }
+      if (t == GD_SINDIR_ENTRY) {
+        /* twice (a failed first resolution of the inputs must not be remembered as a success), and every string
+         * handed back is read: a pointer that is not a string is an ASan report */
+        int rep;
+        for (rep = 0; rep < 2; rep++) {
+          const char *sb[64]; size_t k, ns, tot = 0;
+          memset(sb, 0, sizeof sb);
+          ns = gd_getdata64(D, f, 0, 0, 0, 8, GD_STRING, sb);
+          for (k = 0; k < ns && k < 64; k++) if (sb[k]) tot += strlen(sb[k]);
+          report(rep ? "getdata_s2" : "getdata_s", f, D, (long long)(ns * 1000 + tot % 1000));
+        }
+        continue;
+      }
       report_data("getdata_d0", f, D, gd_getdata64(D, f, 0, 0, 0, 64, GD_FLOAT64, dbuf), dbuf, 8);
       report_data("getdata_i3", f, D, gd_getdata64(D, f, 0, 3, 0, 17, GD_INT64, ibuf), ibuf, 8);
       report_data("getdata_c", f, D, gd_getdata64(D, f, 1, 1, 1, 5, GD_COMPLEX128, dbuf), dbuf, 16);
